@@ -281,7 +281,7 @@ namespace c16
   template<typename Shape_, bool simplex_> void bilin_target(Tape& t, Ctx& c)
   {
     MeshOpts o; o.dim = Shape_::dimension; o.simplex = simplex_; o.max_n = (o.dim == 2 ? 4 : 2);
-    const int which = t.pick({3, 3, 2, 2, 1, 2, 2, 2, 2, 2});
+    const int which = t.pick({3, 3, 2, 2, 2, 2, 2, 2, 2, 2});
     // work bound: pairs with many local dofs get fewer cells (3D: lagrange3 has 64 resp. 20 local dofs)
     if(o.dim == 3) o.max_cells = (which == 8 || which == 9) ? 2 : ((which == 1 || which == 2 || which == 4 || which == 5) ? 4 : 8);
     RawMesh rm = gen_mesh(t, o);
